@@ -23,6 +23,8 @@ SHAPES = {
     'deep': {'chars': 'abc', 'char_w': 3, 'type_w': 2, 'dict_n': 1, 'char_ngrams': ['abc', 'b', 'bc'], 'type_ngrams': ['KH', 'O', 'DD'], 'n_dicts': 3, 'words': ['b', 'ab'], 'extra_weights': 0},
     # 'ab' is a non-entry state that inherits the output of entry 'b' (entry 'abc' has the non-entry prefix 'ab'); same for words
     'inherit': {'chars': 'abc', 'char_w': 2, 'type_w': 2, 'dict_n': 2, 'char_ngrams': ['b', 'abc'], 'type_ngrams': ['H', 'KKH'], 'n_dicts': 1, 'words': ['b', 'abc'], 'extra_weights': 0},
+    # type window larger than the char window (each kind of n-gram must be cut to ITS window)
+    'typewide': {'chars': 'ab', 'char_w': 1, 'type_w': 3, 'dict_n': 1, 'char_ngrams': ['a', 'ab'], 'type_ngrams': ['K', 'HK', 'R'], 'n_dicts': 1, 'words': ['a'], 'extra_weights': 1},
     'nodict': {'chars': 'a', 'char_w': 1, 'type_w': 1, 'dict_n': 4, 'char_ngrams': ['a'], 'type_ngrams': ['T'], 'n_dicts': 0, 'words': [], 'extra_weights': 2},
 }
 BOUNDS = {
